@@ -442,7 +442,11 @@ def run_C02(rng, tier, deep):
         c["par"] = dict(im=im, jm=jm)
         c["meas_pt"] = pt
         run_oracle(st, o_reciprocity, c)
-    return finish(st, "random requests (all halo kinds incl. incommensurate and default, dx != dy, all source kinds, truncation 2..512 modes, "
+    for k in range(budget(tier, deep, 4, 16)):
+        c = random_case(rng)
+        c["par"] = dict(variation=["mode", "source", "levels", "precision"][k % 4])
+        run_oracle(st, o_result_lifetime, c)
+    return finish(st, "result lifetime (earlier results intact after later solves, no shared memory, in-place post-processing does not reach later solves); random requests (all halo kinds incl. incommensurate and default, dx != dy, all source kinds, truncation 2..512 modes, "
                   "uniform/varying profiles, both precisions, 1-3 levels); oracle: one dispersion and one footprint solve per case at a random on-grid tower",
                   deep, TOL)
 
@@ -1246,6 +1250,49 @@ def o_levels_big(case):
 
 
 @oracle
+def o_result_lifetime(case):
+    """what a solve RETURNS belongs to the caller: a later solve (the same request, other levels, another source, the other mode) neither changes
+    arrays returned earlier nor shares memory with them, and post-processing a result in place does not reach any later solve"""
+    base = base_of(case)
+    var = case["par"]["variation"]
+    nz = len(base["z"])
+    other = dict(base)
+    if var == "levels":
+        other["levels"] = [int(nz - 1), 0] if np.ndim(base["levels"]) == 0 else int(np.ravel(base["levels"])[0])
+    elif var == "source":
+        other["q"] = np.asarray(base["q"], dtype=float)[::-1, ::-1] * 1.5 + 0.25
+    elif var == "mode":
+        other["footprint"] = not base["footprint"]
+    elif var == "precision":
+        other["precision"] = "single" if base["precision"] == "double" else "double"
+    r1 = real_solve(base)
+    a1 = [np.asarray(x) for x in (r1[0][0], r1[0][1], r1[0][2], r1[1], r1[2])]
+    snap = [x.copy() for x in a1]
+    r2 = real_solve(other)
+    a2 = [np.asarray(x) for x in (r2[0][0], r2[0][1], r2[0][2], r2[1], r2[2])]
+    names = ("X", "Y", "Z", "conc", "flx")
+    for nm, x, s0 in zip(names, a1, snap):
+        if x.shape != s0.shape or not np.array_equal(x, s0):
+            return fail("result-lifetime/overwritten/%s" % nm, "the %s array returned by a solve was changed by a later solve (%s varied)" % (nm, var), None, "unchanged", "changed", 0)
+    for nm, x, y in zip(names, a1, a2):
+        if x.size and y.size and np.shares_memory(x, y):
+            return fail("result-lifetime/shared/%s" % nm, "the %s arrays returned by two solves share memory (%s varied)" % (nm, var), None, "separate", "shared", 0)
+    for y in a2:
+        if y.flags.writeable and y.size:
+            y *= -3.0
+            y += 7.0
+    for x in a1[3:]:
+        if x.flags.writeable and x.size:
+            x += 1.0
+    r3 = real_solve(base)
+    a3 = [np.asarray(x) for x in (r3[0][0], r3[0][1], r3[0][2], r3[1], r3[2])]
+    for nm, x, s0 in zip(names, a3, snap):
+        if x.shape != s0.shape or not np.array_equal(x, s0):
+            return fail("result-lifetime/postprocessing/%s" % nm, "after earlier results were post-processed in place, the same request returns another %s" % nm, None, "bit-identical", "differs", 0)
+    return None
+
+
+@oracle
 def o_levels_interface(case):
     """the same clause through the configuration-driven interface: `domain.output_levels` = any list of nodes (a permutation of ALL nodes, a
     descending list, repeats, a single level) - slice k of the single run is the single-level run for the k-th requested node, with its height"""
@@ -1339,6 +1386,10 @@ def run_C10(rng, tier, deep):
         c["par"] = dict(form=str(rng.choice(forms)), full=bool(rng.random() < 0.3), cont=str(rng.choice(["tuple", "list", "array"])))
         st["branches"]["levels=%s" % kind] = st["branches"].get("levels=%s" % kind, 0) + 1
         run_oracle(st, o_levels, c)
+    for k in range(budget(tier, deep, 4, 16)):
+        c = random_case(rng)
+        c["par"] = dict(variation=["levels", "source", "mode", "precision"][k % 4])
+        run_oracle(st, o_result_lifetime, c)
     for k in range(budget(tier, deep, 4, 16)):
         nz = int(rng.integers(4, 8))
         kind = ["full-perm", "full-desc", "partial", "rep"][k % 4]
